@@ -87,6 +87,68 @@ theorem collect_teardown_once (boxed try_ : Bool) (n : Nat) (hint : Nat × Optio
 theorem array_drop_once (xs : List Id) (hnd : xs.Nodup) (bad : Option Id) :
     (drops (dropInPlace xs bad).1).Nodup := by simpa [dropInPlace] using hnd
 
+/-- **`clone_from`** (the trait default `*self = source.clone()`; regenerated flag: `Clone for GenericArray` does
+    not override it): for every `T::clone` behaviour (panicking at any call or never) and whichever old element's
+    destructor panics, the call is defined, and everything that ever existed — the old contents and every clone
+    made — is accounted for exactly once: dropped inside the call, or held by `a` afterwards (`final`), which
+    the caller releases once.  Nothing is handed out, no unwritten slot is dropped. -/
+theorem clone_from_ledger (f : Nat → Option Id) (old xs : List Id) (bad : Option Id) :
+    ∃ r, cloneFromOp f old xs bad = some r ∧
+      (gives r.ev ++ drops r.ev ++ r.final).Perm (old ++ takes r.ev) ∧ uninitDrops r.ev = 0 := by
+  have hl := C04.clone_ledger f xs
+  unfold C04.Ledger at hl
+  unfold cloneFromOp
+  rw [Bridge.Lib.cloneFromIsDefault_eq]
+  simp only [if_true]
+  revert hl
+  cases cloneOp f xs with
+  | mk tr res =>
+    cases res with
+    | ok ids =>
+      intro ⟨hp, hu⟩
+      refine ⟨_, rfl, ?_, ?_⟩
+      · simp only [gives_append, drops_append, gives_map_drop, drops_map_drop, takes_append, takes_map_drop,
+          List.append_nil, Res.ids, List.nil_append] at hp ⊢
+        refine List.perm_iff_count.mpr (fun a => ?_)
+        have := List.perm_iff_count.mp hp a
+        simp only [List.count_append] at this ⊢
+        omega
+      · simpa using hu
+    | err =>
+      intro ⟨hp, hu⟩
+      refine ⟨_, rfl, ?_, hu⟩
+      simp only [Res.ids, List.append_nil, List.nil_append] at hp ⊢
+      refine List.perm_iff_count.mpr (fun a => ?_)
+      have := List.perm_iff_count.mp hp a
+      simp only [List.count_append] at this ⊢
+      omega
+    | panicked =>
+      intro ⟨hp, hu⟩
+      refine ⟨_, rfl, ?_, hu⟩
+      simp only [Res.ids, List.append_nil, List.nil_append] at hp ⊢
+      refine List.perm_iff_count.mpr (fun a => ?_)
+      have := List.perm_iff_count.mp hp a
+      simp only [List.count_append] at this ⊢
+      omega
+
+/-- … hence no element is released twice: with distinct ids, the drops inside the call together with what the
+    caller still holds (and drops later) have no repetition, whichever destructor or clone call panics -/
+theorem clone_from_once (f : Nat → Option Id) (old xs : List Id) (bad : Option Id) (r : CloneFrom)
+    (h : cloneFromOp f old xs bad = some r) (hnd : (old ++ takes r.ev).Nodup) :
+    (drops r.ev ++ r.final).Nodup := by
+  obtain ⟨r', hr', hp, _⟩ := clone_from_ledger f old xs bad
+  rw [h] at hr'; cases hr'
+  have : (gives r.ev ++ drops r.ev ++ r.final).Nodup := hp.nodup_iff.mpr hnd
+  rw [List.append_assoc] at this
+  exact (List.nodup_append.mp this).2.1
+
+-- a run: 3 old elements, destructor of old element 2 panics; the clones 1000.. are in place afterwards
+example : (cloneFromOp (fun i => some (1000 + i)) [1, 2, 3] [101, 102, 103] (some 2)).map (fun r => (r.res, r.final, drops r.ev)) =
+    some (.panicked, [1000, 1001, 1002], [1, 2, 3]) := by decide
+-- `T::clone` panics at the second call: the one clone made is released, `a` keeps its old contents
+example : (cloneFromOp (fun i => if i = 1 then none else some (1000 + i)) [1, 2, 3] [101, 102, 103] none).map (fun r => (r.res, r.final, drops r.ev)) =
+    some (.panicked, [1, 2, 3], [1000]) := by decide
+
 /-! The statement distinguishes.  With the *previous* statement order of `nth` (drop first, store
     the index afterwards) the same claim is false: `N = 5`, `nth(2)`, the destructor of element 0
     panics — elements 0 and 1 are dropped again by the iterator's `Drop`.  This is the defect that
@@ -114,4 +176,6 @@ end GA.Props.C05
 #print axioms GA.Props.C05.builder_drop_once
 #print axioms GA.Props.C05.consumer_drop_once
 #print axioms GA.Props.C05.array_drop_once
+#print axioms GA.Props.C05.clone_from_ledger
+#print axioms GA.Props.C05.clone_from_once
 #print axioms GA.Props.C05.collect_teardown_once
